@@ -30,6 +30,7 @@ type childIn struct {
 	Events   int // events per configuration
 	Skip     []string
 	Sync     bool // confirm mode: one event at a time, each logged before it is fed
+	Par      bool // parallel clause: every configuration also runs in a multi-processor pipeline
 }
 
 type witness struct {
@@ -106,7 +107,11 @@ func child(raw json.RawMessage, io *core.ChildIO) (any, error) {
 	}
 
 	for ci := in.From; ci < in.To; ci++ {
-		c := genConfig(subSeed(in.Seed, ci), ci, in.Events, in.Thorough)
+		seedIdx := ci
+		if in.Par {
+			seedIdx += 1 << 20 // the parallel clause has its own configurations
+		}
+		c := genConfig(subSeed(in.Seed, seedIdx), ci, in.Events, in.Thorough, in.Par)
 
 		// harness self-check: what we feed is the tree we reason about
 		for ei, ev := range c.events {
@@ -151,15 +156,18 @@ func child(raw json.RawMessage, io *core.ChildIO) (any, error) {
 			if skip[caseKey(ci, plugin)] {
 				continue
 			}
-			io.Log(map[string]any{"config": ci, "plugin": plugin, "selectors": c.Selectors})
+			io.Log(map[string]any{"config": ci, "plugin": plugin, "selectors": c.Selectors, "par": in.Par})
 			// Event objects (and their insane-json roots/node pools) are handed out round-robin, so a small
 			// pool recycles them between events of one configuration. Events are fed in waves smaller than
 			// the pool and the next wave starts only after the previous one reached the output: the input
 			// never has to wait for a free event (pool waiting is C04/C05 territory, not this property).
 			shape := [][2]int{{2, 1}, {4, 3}, {8, 5}, {64, 60}, {256, 200}}[ci%5]
 			capacity, wave := shape[0], shape[1]
+			if in.Par {
+				capacity, wave = 256, 200 // the sequential twin of a parallel run
+			}
 			out.Counters[fmt.Sprintf("pipeline.pool_%d_wave_%d", capacity, wave)]++
-			rr, err := startReal(plugin, c.Selectors, capacity)
+			rr, err := startReal(plugin, c.Selectors, capacity, false)
 			if err != nil {
 				addViol("plugin="+plugin+" config-rejected", &witness{Config: ci, Event: -1, Plugin: plugin, Selectors: c.Selectors, Paths: c.paths, What: "documented selectors rejected: " + err.Error()})
 				continue
@@ -271,6 +279,81 @@ func child(raw json.RawMessage, io *core.ChildIO) (any, error) {
 						Input: ev.bytes, Output: got, Expected: exp.String(), What: f.what})
 				}
 			}
+
+			if !in.Par {
+				continue
+			}
+			// ---- parallel clause: same selectors, same events, GOMAXPROCS*2 processors (each with its own
+			// plugin instance started from the same config pointer), several feeders and source ids. Every
+			// output must be byte-identical to what the single-processor pipeline produced for that event.
+			io.Log(map[string]any{"config": ci, "plugin": plugin, "selectors": c.Selectors, "par": true, "phase": "parallel"})
+			pr, err := startReal(plugin, c.Selectors, 512, true)
+			if err != nil {
+				addViol("plugin="+plugin+" config-rejected", &witness{Config: ci, Event: -1, Plugin: plugin, Selectors: c.Selectors, What: err.Error()})
+				continue
+			}
+			if perr := pr.feedParallel(c.events, 4, 12, 2*time.Minute); perr != nil {
+				out.Incon["parallel pipeline did not deliver all events ("+plugin+")"]++
+				continue
+			}
+			pr.stop()
+			ppre := "parallel." + plugin + "."
+			out.Counters[ppre+"pipelines"]++
+			out.Counters[fmt.Sprintf("%spipelines_with_%02d_working_processors", ppre, pr.probe.arrived.Load())]++
+			if pr.probe.maxSeen.Load() >= 2 {
+				out.Counters[ppre+"pipelines_with_overlapping_Do"]++
+			}
+			out.Counters[ppre+"events_entering_while_another_processor_was_inside"] += pr.probe.overlap.Load()
+			if m := pr.probe.maxSeen.Load(); m > out.Counters["max:"+ppre+"processors_inside_at_once"] {
+				out.Counters["max:"+ppre+"processors_inside_at_once"] = m
+			}
+			for ei, ev := range c.events {
+				seq, ok1 := rr.out(ei)
+				par, ok2 := pr.out(ei)
+				if !ok1 || !ok2 {
+					out.Incon["event missing at output (parallel clause)"]++
+					continue
+				}
+				out.Evals++
+				out.Counters[ppre+"cases"]++
+				if _, dup := pr.out(-ei - 1); dup {
+					addViol("plugin="+plugin+" parallel: event-delivered-twice", &witness{Config: ci, Event: ei, Plugin: plugin, Selectors: c.Selectors, Input: ev.bytes, Output: par})
+				}
+				if seq == par {
+					out.Counters[ppre+"identical_to_sequential"]++
+					if seq != ev.bytes {
+						fps[hash36("par", plugin, hash36(seq))] = struct{}{}
+					}
+					continue
+				}
+				// classify against the reference with the same oracle
+				var exp *node
+				if plugin == "remove_fields" {
+					exp, _ = refRemove(ev.tree, c.paths)
+				} else {
+					exp, _ = refKeep(ev.tree, c.paths)
+				}
+				class := "spelling-only"
+				what := "same JSON value, other bytes"
+				for _, f := range judge(plugin, c.paths, ev.tree, exp, par) {
+					if sf := judge(plugin, c.paths, ev.tree, exp, seq); !hasSig(sf, f.signature) {
+						class = strings.TrimPrefix(f.signature, "plugin="+plugin+" ")
+						what = f.what
+						break
+					}
+				}
+				if class == "spelling-only" {
+					if ps, e1 := parseJSON(par); e1 == nil {
+						if ss, e2 := parseJSON(seq); e2 == nil && !strictEqual(ps, ss) {
+							class, what = "other-value-same-class", "outputs differ in value but fall in the same difference classes"
+						}
+					}
+				}
+				out.Counters[ppre+"differs_from_sequential: "+class]++
+				addViol("plugin="+plugin+" parallel-output-differs-from-sequential",
+					&witness{Config: ci, Event: ei, Plugin: plugin, Selectors: c.Selectors, Paths: c.paths, Input: ev.bytes, Output: par, Expected: seq,
+						What: fmt.Sprintf("with %d processors (one plugin instance each, all started from the same config pointer) the event came out differently than from the single-processor pipeline (expected = sequential output): %s: %s", len(pr.p.Procs), class, what)})
+			}
 		}
 	}
 	for fp := range fps {
@@ -290,6 +373,15 @@ func smaller(a, b *witness) bool {
 		return a.Config < b.Config
 	}
 	return a.Event < b.Event
+}
+
+func hasSig(fs []finding, sig string) bool {
+	for _, f := range fs {
+		if f.signature == sig {
+			return true
+		}
+	}
+	return false
 }
 
 func uniq(s []string) []string {
@@ -353,31 +445,43 @@ func run(c *core.Ctx) {
 		"1-6 selectors (sometimes 10-60) rendered with the documented `\\.` escaping incl. descendants/ancestors/duplicates/other-split twins of each other and numeric components, " +
 		"and N events (depth<=6, 0-140 fields per object, arrays, scalars of every type and raw spelling, non-minimal key escapes, optional whitespace) of which ~70% have some of the paths planted " +
 		"(also through arrays/scalars, or with the leaf missing); all events of a configuration pass through ONE instance of each real plugin in a real single-processor pipeline. " +
+		"Parallel clause: further configurations (120-150 events, 35% with 17-86 top-level fields) run through a single-processor pipeline AND a pipeline with GOMAXPROCS*2=12 processors (one plugin instance each, same config pointer), fed by 4 goroutines over 12 source ids, processors released together once everything is queued; each parallel output must be byte-identical to the sequential one; probe actions around the plugin count overlapping Do calls. " +
 		"non-trivial = at least one selector addresses or crosses something (or keep_fields on a non-empty event); distinct = distinct (plugin, multiset of per-path outcome {depth, matched components, hit type/absent/crossing kind, dotted name, wide object}, result class, top-level size bucket)")
 	c.Assume("events are JSON objects with unique (decoded) keys and valid UTF-8; selector names are non-empty and have no backslash before a dot or at their end (not expressible with the documented escaping)")
 	c.Assume("the pipeline itself (json decoder, fake input, devnull output, stream field absent) passes an event through unchanged apart from whitespace and key re-escaping; keys are compared decoded, values by raw bytes")
 
-	configs := c.N(6000, 40000)
-	events := c.N(25, 60)
-	chunks := c.N(48, 320)
-	per := (configs + chunks - 1) / chunks
+	type job struct {
+		from, to, events, procs int
+		par                     bool
+	}
+	var jobs []job
+	split := func(configs, chunks, events, procs int, par bool) {
+		per := (configs + chunks - 1) / chunks
+		for from := 0; from < configs; from += per {
+			jobs = append(jobs, job{from: from, to: min(from+per, configs), events: events, procs: procs, par: par})
+		}
+	}
+	// sequential clause: one processor, one plugin instance per configuration
+	split(c.N(6000, 40000), c.N(48, 320), c.N(25, 60), 4, false)
+	seqJobs := len(jobs)
+	// parallel clause: own configurations, more events each, GOMAXPROCS 6 => 12 processors per pipeline
+	split(c.N(640, 6400), c.N(32, 160), c.N(120, 150), 6, true)
 
 	m := &merged{counters: map[string]int64{}, viol: map[string]*witness{}, violCount: map[string]int64{}}
 	type chunkRes struct {
 		outs   []*childOut
 		crashV []crashViolation
 	}
-	results := make([]chunkRes, chunks)
+	results := make([]chunkRes, len(jobs))
 
-	core.ParallelFor(chunks, 16, func(ch int) {
-		from, to := ch*per, (ch+1)*per
-		if to > configs {
-			to = configs
-		}
+	runJob := func(ch int) {
+		j := jobs[ch]
+		from, to, events := j.from, j.to, j.events
+		opt := core.ChildOpt{Timeout: 20 * time.Minute, GOMAXPROCS: j.procs}
 		var skip []string
 		for from < to {
-			in := childIn{Seed: c.Seed, Thorough: c.Thorough(), From: from, To: to, Events: events, Skip: skip}
-			res := core.RunChild("c18", in, core.ChildOpt{Timeout: 20 * time.Minute, GOMAXPROCS: 4})
+			in := childIn{Seed: c.Seed, Thorough: c.Thorough(), From: from, To: to, Events: events, Skip: skip, Par: j.par}
+			res := core.RunChild("c18", in, opt)
 			if res.Completed {
 				var o childOut
 				if err := json.Unmarshal(res.Out, &o); err != nil {
@@ -400,13 +504,13 @@ func run(c *core.Ctx) {
 				c.Inconclusive("child crashed before any command")
 				return
 			}
-			cin := childIn{Seed: c.Seed, Thorough: c.Thorough(), From: last.Config, To: last.Config + 1, Events: events, Sync: true}
+			cin := childIn{Seed: c.Seed, Thorough: c.Thorough(), From: last.Config, To: last.Config + 1, Events: events, Sync: !j.par, Par: j.par}
 			for _, p := range append([]string{"ParseNestedFields"}, plugins...) {
 				if p != last.Plugin {
 					cin.Skip = append(cin.Skip, caseKey(last.Config, p))
 				}
 			}
-			conf := core.RunChild("c18", cin, core.ChildOpt{Timeout: 10 * time.Minute, GOMAXPROCS: 4})
+			conf := core.RunChild("c18", cin, opt)
 			if conf.Crashed() {
 				msg, site := core.PanicSite(conf.Stderr)
 				if i := strings.LastIndex(site, ":"); i > 0 {
@@ -422,7 +526,7 @@ func run(c *core.Ctx) {
 					msg = fmt.Sprintf("process exit code %d without panic message", conf.ExitCode)
 				}
 				results[ch].crashV = append(results[ch].crashV, crashViolation{
-					sig:  "plugin=" + last.Plugin + " crash=" + core.NormalizeMsg(msg) + "@" + site,
+					sig:  "plugin=" + last.Plugin + parTag(j.par) + " crash=" + core.NormalizeMsg(msg) + "@" + site,
 					what: "process died inside " + last.Plugin + ": " + msg,
 					wit:  map[string]any{"config": last.Config, "plugin": last.Plugin, "last_command": conf.LastLog(), "stderr": core.Trunc(conf.Stderr, 3000)},
 					cfg:  last.Config,
@@ -433,7 +537,7 @@ func run(c *core.Ctx) {
 			// results of the configurations before the crash are lost: redo [from,last) cheaply is not
 			// possible without the crash, so resume from the crashed configuration with it skipped
 			if last.Config > from {
-				pre := core.RunChild("c18", childIn{Seed: c.Seed, Thorough: c.Thorough(), From: from, To: last.Config, Events: events, Skip: skip}, core.ChildOpt{Timeout: 20 * time.Minute, GOMAXPROCS: 4})
+				pre := core.RunChild("c18", childIn{Seed: c.Seed, Thorough: c.Thorough(), From: from, To: last.Config, Events: events, Skip: skip, Par: j.par}, opt)
 				if pre.Completed {
 					var o childOut
 					if json.Unmarshal(pre.Out, &o) == nil {
@@ -450,7 +554,9 @@ func run(c *core.Ctx) {
 				return
 			}
 		}
-	})
+	}
+	core.ParallelFor(seqJobs, 16, runJob)
+	core.ParallelFor(len(jobs)-seqJobs, 8, func(i int) { runJob(seqJobs + i) }) // 8 x GOMAXPROCS 6: real parallelism inside each child
 
 	var crashes []crashViolation
 	for _, r := range results {
@@ -461,7 +567,11 @@ func run(c *core.Ctx) {
 			}
 			m.evals += o.Evals
 			for k, v := range o.Counters {
-				m.counters[k] += v
+				if strings.HasPrefix(k, "max:") {
+					m.counters[k] = max(m.counters[k], v)
+				} else {
+					m.counters[k] += v
+				}
 			}
 			for _, fp := range o.FPs {
 				c.Nontrivial(fp)
@@ -522,11 +632,24 @@ func run(c *core.Ctx) {
 			need = append(need, p+"."+k)
 		}
 	}
+	for _, p := range plugins {
+		need = append(need, "parallel."+p+".cases", "parallel."+p+".identical_to_sequential", "parallel."+p+".pipelines_with_overlapping_Do")
+		if ov, n := m.counters["parallel."+p+".events_entering_while_another_processor_was_inside"], m.counters["parallel."+p+".cases"]; n > 0 && ov*100 < n {
+			c.Inconclusive("parallel clause: fewer than 1% of the events of " + p + " overlapped with another processor")
+		}
+	}
 	for _, k := range need {
 		if m.counters[k] == 0 {
 			c.Fatal("behaviour class never observed: %s", k)
 		}
 	}
+}
+
+func parTag(par bool) string {
+	if par {
+		return " parallel:"
+	}
+	return ""
 }
 
 type crashViolation struct {
